@@ -33,6 +33,7 @@ class CancellableAction(Future):
         super().__init__()
         self._action = action
         self._cookie = cookie
+        self._running = False
 
     @property
     def cookie(self) -> Any:
@@ -49,10 +50,18 @@ class CancellableAction(Future):
             raise InvalidStateError('Action has already been ran')
 
         try:
+            self._running = True
             with kiwipy.capture_exceptions(self):
                 self.set_result(self._action(*args, **kwargs))
         finally:
+            self._running = False
             self._action = None  # type: ignore
+
+    def cancel(self, *args: Any, **kwargs: Any) -> bool:
+        """Cancel the action, which is only possible as long as it has not started running"""
+        if self._running:
+            return False
+        return super().cancel(*args, **kwargs)
 
 
 def create_task(coro: Callable[[], Awaitable[Any]], loop: Optional[asyncio.AbstractEventLoop] = None) -> Future:
